@@ -195,6 +195,34 @@ def bundle_roundtrip(ctx):
             ctx.violation(f"bundle:program-part-changed:{cls}", f"{src!r}: the statements after `procedure prog` differ from the output without dependencies", {"source": src, "options": dict(output_dependencies=True, procname="prog", skip_procedure_headers=False)})
 
 
+def emitted_bundle_wellformed(ctx):
+    """the bundle as emitted (library text after the size substitution and the bank's own processing): every procedure
+    in it parses and lowers, and nothing of the tool's internal size marker is left in it"""
+    from vf.props.c13 import split_bundle
+    from vf.tv import machine
+
+    progs = ['10 PLAY "CDE"', '10 HDRAW "U5" : A$ = STRING$ ( 2 , "Y" )', "10 CLS : SOUND 1 , 2 : Z = JOYSTK ( 0 )", "10 READ A\n20 DATA ,", '10 HPRINT ( 1 , 2 ) , "X" : HBUFF 1 , 9',
+             "10 A$ = HEX$ ( 3 ) + STR$ ( 4 ) : B = VAL ( A$ ) + INSTR ( 1 , A$ , B$ )", "10 HCIRCLE ( 1 , 2 ) , 3 : HLINE - ( 1 , 2 ) , PSET : HPAINT ( 1 , 2 )"]
+    for src in progs:
+        for size in (32, 40, 16):
+            o = classify(src + "\n", plain=False, add_standard_prefix=True, add_suffix=True, skip_procedure_headers=False, output_dependencies=True, procname="prog", default_str_storage=size)
+            ctx.stats["programs"] += 1
+            if o[0] != "ok":
+                continue
+            for name, body in split_bundle(o[1]):
+                ctx.stats["obligations"] += 1
+                code = re.sub(r'"[^"]*"', '""', re.sub(r"\(\*.*", "", body))
+                if "<<" in code or ">>" in code:
+                    line = [ln for ln in body.split("\n") if "<<" in ln or ">>" in ln][0]
+                    ctx.violation(f"bundle:internal-marker-left:{name}", f"{src!r} (size {size}): procedure {name} still contains the size marker: {line.strip()!r}", {"source": src, "options": dict(output_dependencies=True, procname="prog", skip_procedure_headers=False, default_str_storage=size)})
+                    continue
+                try:
+                    machine.lower(b09front.parse_program(body), "b09")
+                    ctx.stats["identity"] += 1
+                except SyntaxErr as e:
+                    ctx.violation(f"bundle:procedure-unparsable:{name}:{normalise(str(e))}", f"{src!r} (size {size}): bundled procedure {name}: {e}", {"source": src, "options": dict(output_dependencies=True, procname="prog", skip_procedure_headers=False, default_str_storage=size)})
+
+
 def library_wellformed(ctx):
     """with dependencies on, the bundled runtime procedures are part of the emitted text: each of them is read by the same
     BASIC09 front end (statement forms, operand positions) and lowered (IF/ENDIF, FOR/NEXT, WHILE/ENDWHILE, LOOP/ENDLOOP,
@@ -250,6 +278,7 @@ def run(tier):
     reserved_lemma(ctx)
     bundle_roundtrip(ctx)
     library_wellformed(ctx)
+    emitted_bundle_wellformed(ctx)
     ctx.add_solver_stats(smt.STATS.export())
     ctx.extra["solver"] = {"z3": smt.z3_version()}
     ctx.explanation = "structural acceptance by the independent BASIC09 reader is decided per program (no solver); the content and identifier lemmas are z3 regex queries over the real grammar regexes with sentinel-derived emission templates"
